@@ -148,8 +148,8 @@ fn pub_region(pos: usize, m: usize, n: usize) -> &'static str {
 pub fn run(ctx: &Ctx, which: Which) {
     let small: Vec<(usize, usize)> = vec![(1, 1), (1, 2), (2, 1), (2, 2), (3, 2), (2, 3), (3, 3), (4, 4), (4, 1), (1, 4)];
     let big: Vec<(usize, usize)> = ctx.tier.pick(vec![(8, 8)], vec![(8, 8), (16, 4), (4, 16)]);
-    let n_random = ctx.tier.pick(40_000usize, 1_000_000);
-    let n_big = ctx.tier.pick(64usize, 5_000);
+    let n_random = ctx.tier.pick(200_000usize, 2_000_000);
+    let n_big = ctx.tier.pick(256usize, 5_000);
     ctx.set_rule(&format!(
         "wrapper-only public-batch circuit (repo builder via hook, free inner PIs) for (M,N) in {:?} + {:?}; (M,N)=(2,1),(2,2) over a reduced exhaustive inner domain; \
          {} random vectors of inner statements (real inners from small pools of blocks differing in one limb / assets / fees, dummy inners with arbitrary fields incl. non-zero slots, \
@@ -253,7 +253,7 @@ pub fn run_c36(ctx: &Ctx) {
         vec![(1, 1), (2, 2), (3, 2), (2, 3), (4, 4), (3, 4)],
         vec![(1, 1), (2, 2), (3, 2), (2, 3), (4, 4), (3, 4), (8, 4), (4, 8), (8, 8)],
     );
-    let n_chains = ctx.tier.pick(6_000usize, 200_000);
+    let n_chains = ctx.tier.pick(40_000usize, 400_000);
     ctx.set_rule(
         "a compatible set of real leaf statements (one block/asset/fee, distinct nullifiers, accounts from a small pool so groups form within and across batches), \
          split into M inner batches of capacity N (some empty => all-dummy inner, some part-filled => dummy leaves), generated slot orders and preimages; \
